@@ -49,6 +49,16 @@ GROUPS = {
 def _max_from_conds(f, key, want_min=False):
     """Largest (or, for want_min, smallest) value of `key` that the function's comparisons with constants let through."""
     vals = []
+    # a local that is copied to / from the tested object stands for it (`n_keys = input[0]; sig->n_keys = n_keys;`)
+    keys = {key}
+    for el in f.elems():
+        for x in walk(el.e):
+            if kind(x) == "assign" and x[1] == "=":
+                lk, rk = Giv.key(x[2]), Giv.key(x[3])
+                if lk == key and rk is not None and kind(strip(x[3])) == "var":
+                    keys.add(rk)
+                elif rk == key and lk is not None and kind(strip(x[2])) == "var":
+                    keys.add(lk)
     for b in f.blocks.values():
         if b.cond is None:
             continue
@@ -60,10 +70,10 @@ def _max_from_conds(f, key, want_min=False):
         if kind(c) != "bin" or c[1] not in ("<", ">", "<=", ">="):
             continue
         op, L, R = c[1], c[2], c[3]
-        if Giv.key(R) == key and int_val(L) is not None:
+        if Giv.key(R) in keys and int_val(L) is not None:
             op = {"<": ">", ">": "<", "<=": ">=", ">=": "<="}[op]
             L, R = R, L
-        if Giv.key(L) != key or int_val(R) is None:
+        if Giv.key(L) not in keys or int_val(R) is None:
             continue
         C = int_val(R)
         if neg:
@@ -176,8 +186,24 @@ NO_NARROW = [
 ]
 
 
-def _reads_buf(e, buf):
-    return any(x[0] == "index" and kind(strip(x[1])) == "var" and strip(x[1])[1] == buf for x in walk(e))
+def _reads_buf(e, buf, aliases=()):
+    return any((x[0] == "index" and kind(strip(x[1])) == "var" and strip(x[1])[1] == buf) or (x[0] == "var" and x[1] in aliases) for x in walk(e))
+
+
+def _byte_aliases(f, buf):
+    """Locals with a single definition that is one byte read from buf (`header = proof[*offset];`): they stand for that byte."""
+    defs = {}
+    for el in f.elems():
+        for (n, op, rhs, via) in defs_in_elem(el.e):
+            defs.setdefault(n, []).append((op, rhs, via))
+    out = set()
+    for n, ds in defs.items():
+        if n in f.param_index or len(ds) != 1:
+            continue
+        op, rhs, via = ds[0]
+        if op == "=" and via in ("assign", "decl") and rhs is not None and kind(strip(rhs)) == "index" and _reads_buf(rhs, buf):
+            out.add(n)
+    return out
 
 
 def bits_obligations(prog):
@@ -185,10 +211,13 @@ def bits_obligations(prog):
     fname, buf, props = HEADER
     f = prog.fn(fname)
     masks = []
+    hal = _byte_aliases(f, buf)
     for el in f.elems(top_only=False):
         for x in walk(el.e):
             if x[0] == "bin" and x[1] == "&":
                 for a, b in ((x[2], x[3]), (x[3], x[2])):
+                    if int_val(b) is not None and kind(strip(a)) == "var" and strip(a)[1] in hal:
+                        masks.append((int_val(b), el.loc))
                     if int_val(b) is not None and _reads_buf(a, buf) and kind(strip(a)) == "index":
                         idx = strip(a)[2]
                         # only the header byte itself: proof[*offset] before any increment (index expression is exactly *offset)
@@ -199,7 +228,7 @@ def bits_obligations(prog):
             for x in walk(b_.cond):
                 if x[0] == "bin" and x[1] == "&":
                     for a, b in ((x[2], x[3]), (x[3], x[2])):
-                        if int_val(b) is not None and kind(strip(a)) == "index" and _reads_buf(a, buf):
+                        if int_val(b) is not None and ((kind(strip(a)) == "index" and _reads_buf(a, buf)) or (kind(strip(a)) == "var" and strip(a)[1] in hal)):
                             masks.append((int_val(b), b_.term["loc"]))
     union = 0
     for m, _ in masks:
@@ -211,10 +240,11 @@ def bits_obligations(prog):
     for (fname, buf, op, need, props, what) in SPARE_BITS:
         f = prog.fn(fname)
         found = []
+        al = _byte_aliases(f, buf)
         for b_ in f.blocks.values():
             if b_.cond is None:
                 continue
-            hit = any(x[0] == "bin" and x[1] == op and (_reads_buf(x[2], buf) or _reads_buf(x[3], buf)) for x in walk(b_.cond))
+            hit = any(x[0] == "bin" and x[1] == op and (_reads_buf(x[2], buf, al) or _reads_buf(x[3], buf, al)) for x in walk(b_.cond))
             if not hit:
                 continue
             rej = False
